@@ -382,4 +382,158 @@ theorem runLazy_force (tab : Table) (n : Nat) : ∀ (prog : List Acc) (lp : LPkt
     simp only [runLazy, runEager, List.map_cons]
     rw [h1, h3]; rfl
 
+/-! ## Under the discipline D, eager decoding = forcing the lazy packet -/
+
+/-- What initialDecode / decodeNextLayer make of a decoder's outcome. -/
+def finish (p : Pkt) : Out → Pkt
+  | .ret false => p
+  | _ => addFinal p
+
+/-- `return p.NextDecoder(d)`: the callee's outcome is the caller's outcome. -/
+theorem eager_tail_pass (run : DecId → Nat → Nat → Pkt → Option (Pkt × Out)) (r : Option (Pkt × Out)) :
+    (match r with
+      | none => none
+      | some (p', .ret false) => eagerBeh run (.ret false) p'
+      | some (p', .ret true) => eagerBeh run (.ret true) p'
+      | some (p', .panic) => some (p', .panic)) = r := by
+  cases r with
+  | none => rfl
+  | some x =>
+    obtain ⟨p', o⟩ := x
+    cases o with
+    | ret e => cases e <;> rfl
+    | panic => rfl
+
+theorem applyAct_last_of_not_add (a : Act) (p : Pkt) (h : ∀ l, a ≠ .add l) : (applyAct a p).last = p.last := by
+  cases a <;> first | rfl | exact absurd rfl (h _)
+
+/-- One disciplined decoder body, run lazily and eagerly from the same packet: either it ends
+    without a continuation (same packet, same outcome), or it ends in `return p.NextDecoder(d')`
+    after adding a layer `l` with a strictly shorter payload — the lazy run stores `d'`, the eager
+    run calls it at once on `l`'s payload (or returns nil if that is empty). -/
+theorem DBeh_sim (run : DecId → Nat → Nat → Pkt → Option (Pkt × Out)) (len : Nat) (b : Beh) :
+    ∀ (la : Option Layer) (p : Pkt) (nx : Option DecId),
+    DBeh len la b → (∀ l, la = some l → p.last = some l) →
+    (∃ p2 out, lazyBeh b ⟨p, nx⟩ = (⟨p2, nx⟩, out) ∧ eagerBeh run b p = some (p2, out)
+        ∧ (out = .ret false ∨ out = .ret true ∨ out = .panic))
+    ∨ (∃ p2 d' l, lazyBeh b ⟨p, nx⟩ = (⟨p2, some d'⟩, .ret false) ∧ p2.last = some l ∧ l.payLen < len
+        ∧ eagerBeh run b p = if l.payLen = 0 then some (p2, .ret false) else run d' l.poff l.payLen p2) := by
+  induction b with
+  | ret e =>
+    intro la p nx _ _
+    exact Or.inl ⟨p, .ret e, rfl, rfl, by cases e <;> simp⟩
+  | panic =>
+    intro la p nx _ _
+    exact Or.inl ⟨p, .panic, rfl, rfl, by simp⟩
+  | act a k ih =>
+    intro la p nx hD hla
+    cases a with
+    | add l =>
+      have := ih (some l) (applyAct (.add l) p) nx (by simpa [DBeh] using hD) (by intro l' h; cases h; rfl)
+      simpa [lazyBeh, eagerBeh] using this
+    | setLink l =>
+      have := ih la (applyAct (.setLink l) p) nx (by simpa [DBeh] using hD) hla
+      simpa [lazyBeh, eagerBeh] using this
+    | setNet l =>
+      have := ih la (applyAct (.setNet l) p) nx (by simpa [DBeh] using hD) hla
+      simpa [lazyBeh, eagerBeh] using this
+    | setTrans l =>
+      have := ih la (applyAct (.setTrans l) p) nx (by simpa [DBeh] using hD) hla
+      simpa [lazyBeh, eagerBeh] using this
+    | setApp l =>
+      have := ih la (applyAct (.setApp l) p) nx (by simpa [DBeh] using hD) hla
+      simpa [lazyBeh, eagerBeh] using this
+    | setErr l =>
+      have := ih la (applyAct (.setErr l) p) nx (by simpa [DBeh] using hD) hla
+      simpa [lazyBeh, eagerBeh] using this
+    | trunc =>
+      have := ih la (applyAct .trunc p) nx (by simpa [DBeh] using hD) hla
+      simpa [lazyBeh, eagerBeh] using this
+  | next d kOk kErr _ _ =>
+    intro la p nx hD hla
+    cases d with
+    | none =>
+      have hk : kErr = .ret true := by simpa [DBeh] using hD
+      subst hk
+      exact Or.inl ⟨p, .ret true, rfl, rfl, by simp⟩
+    | some d' =>
+      obtain ⟨hk1, hk2, l, hl, hlt⟩ : kOk = .ret false ∧ kErr = .ret true ∧ ∃ l, la = some l ∧ l.payLen < len := by
+        simpa [DBeh] using hD
+      subst hk1 hk2
+      have hlast := hla l hl
+      refine Or.inr ⟨p, d', l, rfl, hlast, hlt, ?_⟩
+      simp only [eagerBeh, hlast]
+      split
+      · rfl
+      · exact eager_tail_pass run _
+
+theorem inputWin_of_last (p : Pkt) (l : Layer) (h : p.last = some l) : inputWin p = (l.poff, l.payLen) := by
+  simp [inputWin, h]
+
+/-- decodeNextLayer when there is input and a decoder. -/
+theorem step_run (tab : Table) (rc : Bool) (p : Pkt) (d : DecId) (off len : Nat)
+    (hw : inputWin p = (off, len)) (hlen : len ≠ 0) :
+    step tab rc ⟨p, some d⟩ =
+      match lazyBeh (tab d p.data off len) ⟨p, none⟩ with
+      | (lp2, .ret false) => (lp2, false)
+      | (lp2, .ret true)  => ({ lp2 with p := addFinal lp2.p }, false)
+      | (lp2, .panic)     => if rc then ({ lp2 with p := addFinal lp2.p }, false) else (lp2, true) := by
+  simp [step, hw, hlen]
+
+theorem step_empty (tab : Table) (rc : Bool) (p : Pkt) (d : DecId) (off : Nat)
+    (hw : inputWin p = (off, 0)) : step tab rc ⟨p, some d⟩ = (⟨p, none⟩, false) := by
+  simp [step, hw]
+
+/-- Centrepiece of C03: under D, the eager run of decoder `d` from packet `p` and forcing the
+    lazy packet `(p, next := d)` build the same packet — for every fuel that covers the input
+    length (each chained decoder gets a strictly shorter, non-empty input). -/
+theorem eager_force_sim (tab : Table) (hD : D tab) : ∀ (fuelE fuelL : Nat) (d : DecId) (off len : Nat) (p : Pkt),
+    len ≠ 0 → inputWin p = (off, len) → len ≤ fuelE → len + 1 ≤ fuelL →
+    ∃ p' out, eagerDec tab fuelE d off len p = some (p', out)
+      ∧ force tab fuelL ⟨p, some d⟩ = some (finish p' out) := by
+  intro fuelE
+  induction fuelE with
+  | zero => intro fuelL d off len p h0 _ hle _; omega
+  | succ n ih =>
+    intro fuelL d off len p h0 hw hle hlf
+    obtain ⟨m, rfl⟩ : ∃ m, fuelL = m + 1 := ⟨fuelL - 1, by omega⟩
+    rw [force_succ_of_some tab m ⟨p, some d⟩ d rfl, step_run tab true p d off len hw h0]
+    simp only [eagerDec]
+    rcases DBeh_sim (eagerDec tab n) len (tab d p.data off len) none p none (hD d p.data off len) (by intro l h; cases h) with
+      ⟨p2, out, hl, he, ho⟩ | ⟨p2, d', l, hl, hlast, hlt, he⟩
+    · refine ⟨p2, out, he, ?_⟩
+      rw [hl]
+      rcases ho with rfl | rfl | rfl
+      · simp [finish, force_of_none]
+      · simp [finish, force_of_none]
+      · simp [finish, force_of_none]
+    · rw [hl, he]
+      simp only
+      by_cases hz : l.payLen = 0
+      · refine ⟨p2, .ret false, by simp [hz], ?_⟩
+        obtain ⟨m', rfl⟩ : ∃ m', m = m' + 1 := ⟨m - 1, by omega⟩
+        rw [force_succ_of_some tab m' ⟨p2, some d'⟩ d' rfl,
+            step_empty tab true p2 d' l.poff (by rw [inputWin_of_last p2 l hlast, hz])]
+        simp [finish, force_of_none]
+      · simp only [hz, if_false]
+        exact ih m d' l.poff l.payLen p2 hz (inputWin_of_last p2 l hlast) (by omega) (by omega)
+
+/-- Termination of eager decoding under D, from any packet state (no assumption on `p`). -/
+theorem eagerDec_terminates (tab : Table) (hD : D tab) : ∀ (fuel : Nat) (d : DecId) (off len : Nat) (p : Pkt),
+    len + 1 ≤ fuel → ∃ r, eagerDec tab fuel d off len p = some r := by
+  intro fuel
+  induction fuel with
+  | zero => intro d off len p h; omega
+  | succ n ih =>
+    intro d off len p h
+    simp only [eagerDec]
+    rcases DBeh_sim (eagerDec tab n) len (tab d p.data off len) none p none (hD d p.data off len) (by intro l h; cases h) with
+      ⟨p2, out, _, he, _⟩ | ⟨p2, d', l, _, _, hlt, he⟩
+    · exact ⟨_, he⟩
+    · rw [he]
+      by_cases hz : l.payLen = 0
+      · exact ⟨_, by simp [hz]⟩
+      · simp only [hz, if_false]
+        exact ih d' l.poff l.payLen p2 (by omega)
+
 end Gp.Pkt
